@@ -103,7 +103,8 @@ def run(tier):
                        "is non-trivial if it has >= 2 merges; distinct by its event list")
     chk.assumptions = [
         "detailed balance is established by enumeration up to tree depth 2 (quick) / 3 (thorough, depth 3 with equal weights only), not for all depths",
-        "replay drives the real tree builder through a scripted Hamiltonian; the real integrator's contribution is covered by C02/C03",
+        "replay drives the real tree builder through a scripted Hamiltonian; the real integrator's contribution is covered by C02/C03; "
+        "the momentum refresh of the real Hamiltonian is bound as a data-flow property (MomentumTrace, as under C04), its distribution is trusted to rand_distr",
         "acceptance probabilities are compared with 1e-12 relative tolerance (logaddexp/exp are inexact) and by RNG words placed 1e-9 around p",
     ]
     C.build_harness()
@@ -130,6 +131,10 @@ def run(tier):
         # the invariants of that configuration are model-checked exhaustively under C03)
         run_replay(chk, "wide_sim", [1, 2], "ConfigsWide", True, True, simulate=150000, depth=400)
         run_replay(chk, "d3_w3_sim", [1, 2, 3], "ConfigsDefault3", False, False, simulate=150000, depth=400)
+    # 4. the momentum refresh of the real Hamiltonian (the kernel above takes the start momentum as given): every momentum
+    # of real NUTS chains is the standard-normal transform, scale one, of fresh words of the chain's stream (Momentum.tla)
+    import c04
+    c04.momentum_traces(chk, 45 if tier == "quick" else 600, name="c01_mom", prefix="momentum:")
     chk.cov["exhaustive"] = True
     return chk.finish()
 
